@@ -237,7 +237,8 @@ ValGT(h, n) ==
        \/ Lo(h) > n
 ValEQ(h, n) == ~ValGT(h, n) /\ (n = 0 \/ ValGT(h, n - 1))
 Has(e, n) == n \in DOMAIN e.h
-\* field f claims more than `per` KiB-free arithmetic can hold in the input: f * unit > len
+\* field n of the input claims more units of `unit` bytes than the input has bytes: value * unit > len
+\* (written with a division: TLC integers are 32-bit)
 Claims(e, n, unit) == Has(e, n) /\ ValGT(e.h[n], e.len \div unit)
 
 Symptom(e) ==
